@@ -16,7 +16,8 @@ EXPLANATION = (
     "the ring wrappers delegates exactly once to the same-named inner method with its parameters in order "
     "and returns that call's result; (D4) the local rejection conditions of the frontend API are must-facts "
     "at the send site (exact relations); (D5) files handed to the handler are the received ones. With "
-    "C01/W4-W5 this closes the value path caller -> wire -> handler field by field.")
+    "C01/W4-W5 this closes the value path caller -> wire -> handler field by field."
+    " Also: (D6-D8) sibling rules C01/W5, C07/G1, C07/G5 for body fields, local feature gates and the frontend's negotiation record; (D9) the parallel region/descriptor lists of a memory table are written only by the context's own append; (D10-D12) C04/P1, C20/X2, C03/R3.")
 NOT_DECIDED = ("Run-time equality of values (follows from D2+W5 under faithful ByteValued copies), fd identity at kernel level, "
                "the position of a call in a longer session.")
 
